@@ -1874,114 +1874,139 @@ class ProbeLock:
         return False
 
 
+def exec_two_threads(rec: dict):
+    """run one recorded two-thread schedule; returns (impl, lines, replies, (signature, what) or None, waited)"""
+    import threading
+    me, m = rec["me"], rec["m"]
+    im = Impl(me, m)
+    lines, replies = [f"rt.new {bits(me)} {im.m}"], ["ok"]
+    n_ops = [0]
+
+    def do(op):
+        ln, rep = im.apply(tuple(op), n_ops[0])
+        n_ops[0] += 1
+        lines.append(ln)
+        replies.append(rep)
+    for op in rec["pre"]:
+        do(op)
+    worker_kind, wid = rec["worker"]
+    wtag = im.ntag
+    if worker_kind == "add":
+        wnode = node_cls()(wtag, wid, 777)
+        im.objs[wtag] = wnode
+        im.ntag += 1
+        wnode.failed, wnode.rtt = 0, 1000 / float(UNIT)
+        script_contact(im.routing, wnode, 1)
+    result = {}
+
+    def worker():
+        try:
+            if worker_kind == "add":
+                result["value"] = im.rt.add(wnode)
+            elif worker_kind == "rmbad":
+                result["value"] = im.rt.remove_bad_nodes()
+            else:
+                result["value"] = im.rt.closest_nodes(wid.to_bytes(W // 8, "big"), max_nodes=8)
+        except Exception as e:
+            result["error"] = e
+    probe = ProbeLock(im.rt.lock)
+    im.rt.lock = probe
+    probe.real.acquire()
+    th = threading.Thread(target=worker, daemon=True)
+    th.start()
+    waited = probe.attempt.wait(10)
+    try:
+        if waited:
+            for op in rec["main"]:
+                do(op)
+    finally:
+        probe.real.release()
+    th.join(20)
+    im.rt.lock = probe.real
+    site = {"add": "add", "rmbad": "remove_bad_nodes", "closest": "closest_nodes"}[worker_kind]
+    how = f"worker {worker_kind} waits at the lock while the main thread adds {len(rec['main'])} nodes into the bucket the call concerns"
+    if th.is_alive():
+        return im, lines, replies, ("RoutingTable.lock:deadlock", f"two threads ({how}): the worker did not finish after the lock was released"), waited
+    if not waited:
+        for op in rec["main"]:      # the call asked for no mutual exclusion: it simply ran first
+            do(op)
+    if "error" in result:
+        e = result["error"]
+        if raised_by_harness(e):
+            raise InfraError(f"harness error in the worker thread: {type(e).__name__}: {e}")
+        return im, lines, replies, (f"RoutingTable.{site}:raises-with-two-threads", f"two threads ({how}): {type(e).__name__}: {e}"), waited
+    verdict = None
+    if worker_kind == "add":
+        res = result["value"]
+        wline = f"rt.add {bits(wid)} 0 1 1000 777 {wtag}"
+        wrep = "none" if res is None else f"stored {res.tag} {res.address[1]}"
+        if res is not None and im.rt.get(res.id) is not res:
+            verdict = ("RoutingTable.add:returned-node-not-stored", f"two threads ({how}): add returned a node that the table does not hold")
+    elif worker_kind == "rmbad":
+        wline, wrep = "rt.rmbad", "[" + ",".join(map(str, sorted(x.tag for x in result["value"]))) + "]"
+    else:
+        wline, wrep = f"rt.closest {bits(wid)} 8 none", "[" + ",".join(str(x.tag) for x in result["value"]) + "]"
+    k0 = len(lines) if waited else len(lines) - len(rec["main"])     # the order the lock imposes
+    lines.insert(k0, wline)
+    replies.insert(k0, wrep)
+    for op in (("dump",), ("closest", wid, 8, None), ("closest", me, 20, None)):
+        do(op)
+    if verdict is None and im.fail is not None:
+        verdict = (im.fail[0], im.fail[1] + f" [after a two-thread schedule: {how}]")
+    return im, lines, replies, verdict, waited
+
+
 def two_thread_schedules(ctx: Ctx, n: int, use_model=True):
     """The table carries a lock, so "any sequence of add / remove_bad_nodes" includes calls from two threads.  Deterministic
-    schedule around that lock: the main thread holds it, a worker thread calls add / remove_bad_nodes / closest_nodes and is
-    observed to wait for the lock, the main thread meanwhile adds nodes that split the very bucket the worker's call concerns,
-    then lets go.  Whatever the worker did must be explainable as having happened AFTER the main thread's adds (that is the
-    order the lock imposes): the model runs that sequential history and must agree, and the tree oracle must hold."""
-    import threading
+    schedule around that lock (no sleeping: a probe around the real RLock reports when the worker starts waiting): the main
+    thread holds the lock, a worker thread calls add / remove_bad_nodes / closest_nodes and waits, the main thread meanwhile
+    adds nodes that split the very bucket the worker's call concerns, then lets go.  What the worker did must be explainable
+    as having happened AFTER the main thread's adds (the order the lock imposes): the model runs that sequential history and
+    must agree, and the tree oracle must hold."""
     rng = ctx.rng
     for s in range(n):
         if len(ctx.failures) >= (1 if ctx.searching else 12):
             break
         me = rng.getrandbits(W)
         m = rng.choice([None, None, 2, 3])
-        im = Impl(me, m)
-        if im.rt is None or getattr(im.rt, "lock", None) is None:
+        scratch = Impl(me, m)
+        if scratch.rt is None or getattr(scratch.rt, "lock", None) is None:
             ctx.count("two-threads:table-has-no-lock")
             continue
-        ops = []
-        lines, replies = [f"rt.new {bits(me)} {im.m}"], ["ok"]
-
-        def do(op):
-            ln, rep = im.apply(op, len(ops))
-            ops.append(op)
-            lines.append(ln)
-            replies.append(rep)
         depth = rng.choice([0, 0, 1, 3, 10])
-        own = lambda extra_bits: ((me >> (W - depth)) << (W - depth) if depth else 0) | rng.getrandbits(W - depth) if extra_bits else 0  # noqa: E731
-        # fill the bucket on the own path (depth `depth`) up to its capacity
-        for _ in range(im.m * (depth + 1) + im.m):
-            do(("add", own(True), 0, 1000, rng.randrange(1, 60000), 1))
-        worker_kind = rng.choice(["add", "add", "add", "rmbad", "closest"])
-        wid = own(True)
-        wtag = im.ntag
-        if worker_kind == "add":
-            wnode = node_cls()(wtag, wid, 777)
-            im.objs[wtag] = wnode
-            im.ntag += 1
-            wnode.failed, wnode.rtt = 0, 1000 / float(UNIT)
-            script_contact(im.routing, wnode, 1)
-        main_ops = [("add", own(True), 0, 1000, rng.randrange(1, 60000), 1) for _ in range(rng.randrange(im.m + 1, 3 * im.m + 2))]
-        result = {}
+        pre = []
 
-        def worker():
-            try:
-                if worker_kind == "add":
-                    result["value"] = im.rt.add(wnode)
-                elif worker_kind == "rmbad":
-                    result["value"] = im.rt.remove_bad_nodes()
-                else:
-                    result["value"] = im.rt.closest_nodes(wid.to_bytes(W // 8, "big"), max_nodes=8)
-            except Exception as e:
-                result["error"] = e
-        probe = ProbeLock(im.rt.lock)
-        im.rt.lock = probe
-        probe.real.acquire()
-        th = threading.Thread(target=worker, daemon=True)
-        th.start()
-        waited = probe.attempt.wait(10)
-        try:
-            if waited:
-                for op in main_ops:
-                    do(op)
-        finally:
-            probe.real.release()
-        th.join(20)
-        im.rt.lock = probe.real
+        def own():
+            head = ((me >> (W - depth)) << (W - depth)) if depth else 0
+            return head | rng.getrandbits(W - depth)
+
+        def inside():
+            """an id inside the bucket that currently owns our own id (the bucket that is allowed to split)"""
+            p_ = scratch.rt.get_bucket(me.to_bytes(W // 8, "big")).prefix_id
+            return ((int(p_, 2) << (W - len(p_))) if p_ else 0) | rng.getrandbits(W - len(p_))
+
+        def pre_add(ident):
+            op = ("add", ident, 0, 1000, rng.randrange(1, 60000), 1)
+            scratch.apply(op, len(pre))
+            pre.append(list(op))
+        for _ in range(scratch.m * depth + rng.randrange(0, scratch.m)):      # some history: the tree may already have split
+            pre_add(own())
+        guard = 0
+        while len(scratch.rt.get_bucket(me.to_bytes(W // 8, "big")).nodes) < scratch.m and guard < 4 * scratch.m:
+            pre_add(inside())       # fill the bucket on our own path
+            guard += 1
+        worker_kind = rng.choice(["add", "add", "add", "add", "rmbad", "closest"])
+        rec = {"kind": "two-threads", "me": me, "m": m, "pre": pre, "worker": [worker_kind, inside()],
+               "main": [["add", inside() if rng.random() < 0.8 else own(), 0, 1000, rng.randrange(1, 60000), 1]
+                        for _ in range(rng.randrange(2, 2 * scratch.m + 2))]}
+        im, lines, replies, verdict, waited = exec_two_threads(rec)
         ctx.count("two-threads:" + ("worker-waited-at-the-lock" if waited else "worker-never-touched-the-lock"))
         ctx.count("two-threads-worker:" + worker_kind)
-        rec = {"kind": "two-threads", "note": "re-run with this VERIF_SEED; schedule index %d" % s, "seed": ctx.seed}
-        if th.is_alive():
-            ctx.oracle_fail("RoutingTable.lock:deadlock", f"two threads: the worker's {worker_kind} did not finish after the lock was released", rec)
-            continue
-        if not waited:
-            for op in main_ops:     # no mutual exclusion was requested by the call: it simply ran first
-                do(op)
-        if "error" in result:
-            e = result["error"]
-            if raised_by_harness(e):
-                raise InfraError(f"harness error in the worker thread: {type(e).__name__}: {e}")
-            ctx.oracle_fail(f"RoutingTable.{'add' if worker_kind == 'add' else 'remove_bad_nodes' if worker_kind == 'rmbad' else 'closest_nodes'}:raises-with-two-threads",
-                            f"two threads (worker {worker_kind} waits at the lock while the main thread adds {len(main_ops)} nodes that split the bucket): "
-                            f"{type(e).__name__}: {e}", rec)
-            continue
-        # the worker's call, placed after the main thread's adds (when it waited) - the order the lock imposes
-        if worker_kind == "add":
-            res = result["value"]
-            wline = f"rt.add {bits(wid)} 0 1 1000 777 {wtag}"
-            wrep = "none" if res is None else f"stored {res.tag} {res.address[1]}"
-            if res is not None and im.rt.get(res.id) is not res:
-                ctx.oracle_fail("RoutingTable.add:returned-node-not-stored", "two threads: add returned a node that the table does not hold", rec)
-        elif worker_kind == "rmbad":
-            wline, wrep = "rt.rmbad", "[" + ",".join(map(str, sorted(x.tag for x in result["value"]))) + "]"
-        else:
-            wline, wrep = f"rt.closest {bits(wid)} 8 none", "[" + ",".join(str(x.tag) for x in result["value"]) + "]"
-        if waited:
-            lines.append(wline)
-            replies.append(wrep)
-        else:
-            k0 = len(lines) - len(main_ops)
-            lines.insert(k0, wline)
-            replies.insert(k0, wrep)
-        for op in (("dump",), ("closest", wid, 8, None), ("closest", me, 20, None)):
-            do(op)
-        case(ctx, ("two-threads", me, worker_kind, len(main_ops)), nontrivial=waited and im.splits > 0, n=len(lines))
-        if im.fail is not None:
-            ctx.oracle_fail(im.fail[0], im.fail[1] + f" [after a two-thread schedule: worker {worker_kind} waited at the lock while the main thread split its bucket]", rec)
-        if use_model and im.fail is None:
-            compare(ctx, lines, replies, dict(rec))
+        case(ctx, ("two-threads", me, worker_kind, len(rec["main"])), nontrivial=waited and im.splits > 0, n=len(lines))
+        if verdict is not None:
+            ctx.oracle_fail(verdict[0], verdict[1], rec)
+        elif use_model:
+            compare(ctx, lines, replies, {"kind": "two-threads-lines"})
 
 
 def run(ctx: Ctx):
@@ -2048,6 +2073,13 @@ def replay(ctx: Ctx, rec: dict):
             print("replay: property holds on this input")
         case(ctx, ("replay",), True)
         compare(ctx, lines, replies, {"kind": "routing", "me": r["me"], "m": r.get("m")})
+    elif r.get("kind") == "two-threads":
+        im, lines, replies, verdict, waited = exec_two_threads(r)
+        print(f"replay: worker {r['worker'][0]} {'waited at the lock' if waited else 'never touched the lock'}; property",
+              f"FAILS: {verdict[0]}: {verdict[1]}" if verdict else "holds on this input")
+        if verdict:
+            ctx.oracle_fail(verdict[0], verdict[1], r)
+        case(ctx, ("replay",), True)
     elif r.get("kind") == "community":
         verdict = run_community(r)
         print("replay: property", f"FAILS: {verdict[0]}: {verdict[1]}" if verdict else "holds on this input")
